@@ -167,7 +167,7 @@ def history_jobs(rng: random.Random, count: int) -> list[dict]:
     for n in range(count):
         td = random_desc(rng, rng.randint(3, 5))
         for f in td["funcs"]:                        # plain functions (the histories rebuild descriptions step by step)
-            for extra in ("retnone", "outperm", "outrenamed", "renamed"):
+            for extra in ("retnone", "outperm", "outrenamed", "renamed", "picker"):
                 f.pop(extra, None)
         # make sure some default is declared by exactly one function and read (without a default) by another one
         if len(td["funcs"]) >= 2 and rng.random() < 0.8:
